@@ -12,3 +12,4 @@ import WhatIs.Props.C06
 import WhatIs.Props.C04
 import WhatIs.Props.C09
 import WhatIs.Props.C03
+import WhatIs.Props.C02
